@@ -255,7 +255,9 @@ pub fn leaf_value(l: &LeafX) -> PResult<AvpValue> {
                 // a sub-second part on three seconds out of four (1 ns, half a second, 999 999 999 ns): the wire carries "the first
                 // four bytes of the NTP timestamp" (RFC 6733 4.3.1), i.e. the whole seconds of the instant - the floor, whatever
                 // the fraction and on both sides of 1970; truncation toward zero or rounding to nearest give another second
-                .timestamp_opt(*z, match z.rem_euclid(4) { 1 => 1, 2 => 500_000_000, 3 => 999_999_999, _ => 0 })
+                // ... and a leap second (23:59:60.2 is how chrono writes the instant: second :59 with nanosecond 1 200 000 000) where the
+                // value is the last second of a minute: still that second on the wire
+                .timestamp_opt(*z, if z.rem_euclid(60) == 59 && z.rem_euclid(7) == 3 { 1_200_000_000 } else { match z.rem_euclid(4) { 1 => 1, 2 => 500_000_000, 3 => 999_999_999, _ => 0 } })
                 .single()
                 .ok_or_else(|| "time not representable".to_string())?,
         )
